@@ -3345,7 +3345,35 @@ impl<'a> Visitor<'a, (bool, DataType)> for FlattenOptionalVisitor {
 impl DataType {
     /// Return a type with non-optional subtypes, it may be optional if one of the
     pub fn flatten_optional(&self) -> DataType {
-        let (is_optional, flat) = self.accept(FlattenOptionalVisitor);
+        // A direct recursion: the generic visitor identifies the visited nodes by equality and two
+        // distinct fields may hold equal (mutually included) types that still differ, such as
+        // float{1, 2} and int[1 2]; their outputs were mixed up, depending on the hasher
+        fn flatten<'a>(data_type: &'a DataType) -> (bool, DataType) {
+            let visitor = FlattenOptionalVisitor;
+            match data_type {
+                DataType::Struct(s) => visitor.structured(
+                    s.fields
+                        .iter()
+                        .map(|(f, t)| (f.clone(), flatten(t.as_ref())))
+                        .collect(),
+                ),
+                DataType::Union(u) => visitor.union(
+                    u.fields
+                        .iter()
+                        .map(|(f, t)| (f.clone(), flatten(t.as_ref())))
+                        .collect(),
+                ),
+                DataType::Optional(o) => visitor.optional(flatten(o.data_type())),
+                DataType::List(l) => visitor.list(flatten(l.data_type()), l.size()),
+                DataType::Set(s) => visitor.set(flatten(s.data_type()), s.size()),
+                DataType::Array(a) => visitor.array(flatten(a.data_type()), a.shape()),
+                DataType::Function(f) => {
+                    visitor.function(flatten(f.domain()), flatten(f.co_domain()))
+                }
+                primitive => visitor.primitive(primitive),
+            }
+        }
+        let (is_optional, flat) = flatten(self);
         if is_optional {
             DataType::optional(flat)
         } else {
